@@ -35,7 +35,7 @@ def pd_def(s, a, b):
 
 def lcard(s, d1, d2):
     """L-card (finite cardinality): two well-formed dicts of equal size, one key set included in the other,
-    have the same key set.  Stated as an axiom instance here; proved in Lean (lemmas/LCard.lean)."""
+    have the same key set.  Used as an instance here; proved in Lean 4 + Mathlib (lemmas/LCard.lean, compiled by the C18 check on every run)."""
     k = z3.Const("lc_k", Val)
     m1, m2 = s.dmap(d1), s.dmap(d2)
     sub = smt.FA([k], z3.Implies(m1[k] != smt.absent, m2[k] != smt.absent), patterns=[m1[k]])
@@ -85,7 +85,7 @@ def child_loop_inv(s0, s, v):
 
 def install(w):
     con = Contract(Q, params={"node1": "Node", "node2": "Node"}, requires=requires, axioms=axioms, ensures=ensures, result_ty="bool",
-                   decreases=lambda s, node1, node2: H(s, node1), assumptions=("L-card", "T-unfold(Eq,PD)"))
+                   decreases=lambda s, node1, node2: H(s, node1), assumptions=("L-card (instances; the lemma itself is machine-checked in Lean, see the obligation C18/lemma:L-card/lean-proof)", "T-unfold(Eq,PD)"))
     w.add(con)
     w.loop(Q, 1, inv=dict_loop_inv("_attributes"))
     w.loop(Q, 2, inv=dict_loop_inv("_nsmap"))
